@@ -12,7 +12,7 @@ SPEC = dict(
           "an entry chain:number is read as (chain, number, blank), chain:numberX as (chain, number, X) when the text after the colon is "
           "a number only without its last character, anything without exactly one colon is rejected, and the list is read entry by "
           "entry (entry_plain, entry_icode, entry_no_colon, list_is_mapM); the model is compared with lib.parse_res_list on generated "
-          "well-formed and malformed texts.",
+          "well-formed and malformed texts. On the set-up pipeline model (Props/Pipeline.lean, for every input and table): titrate_only_keeps_environment (with any list the set-up builds the same hydrogens, atom states and groups - class, type, label, charge, model pKa, centre, interaction atoms - as without the option; only the titratable / exclude flags can differ), titrate_only_listed (every titratable group belongs to a listed residue), foldl_extractStep_all_listed (a list containing everything = no option); the program-level correspondence runs under --titrate_only.",
     note="The census model is trace-driven for bond-derived inputs. That unlisted residues still desolvate and hydrogen-bond is checked "
          "on the real pipeline (desolvation and backbone terms of listed groups are identical to the run without the option; side-chain "
          "partners keep appearing), not proved end-to-end. A blank chain is addressed as '_' (Atom.chain_id), not ' '.",
